@@ -524,6 +524,7 @@ def run_inline_em(key):
 GRID = (0.0, -1.0, -3.0)
 WIDE = (0.0, -800.0, -2000.0)    # class log-likelihoods further apart than the exp() range
 FINE = (-3.0, -3.001, -3.002)     # nearly tied classes with a clearly negative criterion
+NEGINF = (0.0, -1.0, -np.inf)     # classes that are impossible for an observation (log-density -inf)
 
 
 def run_builtin(key):
@@ -533,7 +534,7 @@ def run_builtin(key):
     n = K * F * T
     digits = []
     x = idx
-    grid = {'wide': WIDE, 'fine': FINE}.get(key.get('grid'), GRID)
+    grid = {'wide': WIDE, 'fine': FINE, 'neginf': NEGINF}.get(key.get('grid'), GRID)
     for _ in range(2 * n):
         digits.append(grid[x % 3])
         x //= 3
@@ -551,6 +552,28 @@ def run_builtin(key):
         return viol(f'built-in alignment raised {e!r}')
     if aff.shape != (F, K, T):
         return viol(f'shape {aff.shape}')
+    if key.get('grid') == 'neginf':
+        # tables with impossible classes (log-density -inf): the criterion of every arrangement is 0 * (-inf);
+        # required is only that the result is finite, non-negative and the posterior of SOME arrangement of the
+        # spatial rows (each spatial class used exactly once), columns without any possible class being all zero
+        if not np.isfinite(aff).all() or (aff < 0).any():
+            return viol('result is not finite / non-negative for tables with -inf entries', aff)
+        for f in range(F):
+            found = False
+            for p in itertools.permutations(range(K)):
+                L = sp[f][list(p)] + se[f]
+                with np.errstate(all='ignore'):
+                    mx = np.where(np.isfinite(L.max(0, keepdims=True)), L.max(0, keepdims=True), 0.0)
+                    g = np.exp(L - mx) * w
+                    z = g.sum(0, keepdims=True)
+                    g = np.where(z > 0, g / np.where(z > 0, z, 1.0), 0.0)
+                if np.abs(g - aff[f]).max() <= 1e-12:
+                    found = True
+                    break
+            if not found:
+                return viol(f'bin {f}: result is not the posterior of any arrangement of the spatial classes '
+                            f'(tables with -inf entries)', aff[f])
+        return ok(outcome=tol.digest(aff), flags=['neginf'], states=F, transitions=F)
     if not np.isfinite(aff).all() or (aff < 0).any() or \
             np.abs(aff.sum(1) - 1).max() > 1e-12:
         return viol('result is not a distribution over classes', aff)
@@ -709,6 +732,8 @@ def subchecks(tier, seed):
                     if (K, F, T) in ((2, 1, 1), (2, 1, 2), (3, 1, 1)) and (thorough or w == 'uniform'):
                         yield (K, F, T, idx, w, 'wide')
                         yield (K, F, T, idx, w, 'fine')
+                        if (K, F, T) != (3, 1, 1) or idx % 3 == 0:
+                            yield (K, F, T, idx, w, 'neginf')
     subs.append(Sub('builtin_spatial_spectral_pa', ('K', 'F', 'T', 'idx', 'w', 'grid'),
                     builtin_cases, run_builtin,
                     bound=dict(grid=list(GRID), wide_grid=list(WIDE), tables='all stream tables of the listed shapes'),
